@@ -1,4 +1,5 @@
 import Tibc.Props.C06
+import Tibc.Expect.Packet
 #print axioms Tibc.C06.back_away_base
 #print axioms Tibc.C06.back_away_path
 #print axioms Tibc.C06.parse_full
